@@ -16,8 +16,10 @@ type TypeSpec struct {
 	RangeTag string      `json:"range_tag,omitempty"`
 	Length   string      `json:"length,omitempty"`
 	LenMsg   string      `json:"len_msg,omitempty"`
+	LenTag   string      `json:"len_tag,omitempty"`
 	Patterns []string    `json:"patterns,omitempty"`
 	PatMsg   string      `json:"pat_msg,omitempty"`
+	PatTag   string      `json:"pat_tag,omitempty"`
 	Enums    []string    `json:"enums,omitempty"`
 	EnumStat []string    `json:"enum_status,omitempty"` // status of the enum at the same index ("" = none written)
 	FD       int         `json:"fd,omitempty"`
@@ -224,16 +226,26 @@ func (x *w) typ(d int, t *TypeSpec) {
 			x.ln(d+1, "range %s;", q(t.Range))
 		}
 	}
+	sub := func(msg, tag string) string {
+		out := ""
+		if msg != "" {
+			out += fmt.Sprintf(" error-message %s;", q(msg))
+		}
+		if tag != "" {
+			out += fmt.Sprintf(" error-app-tag %s;", q(tag))
+		}
+		return out
+	}
 	if t.Length != "" {
-		if t.LenMsg != "" {
-			x.ln(d+1, "length %s { error-message %s; }", q(t.Length), q(t.LenMsg))
+		if b := sub(t.LenMsg, t.LenTag); b != "" {
+			x.ln(d+1, "length %s {%s }", q(t.Length), b)
 		} else {
 			x.ln(d+1, "length %s;", q(t.Length))
 		}
 	}
 	for _, p := range t.Patterns {
-		if t.PatMsg != "" {
-			x.ln(d+1, "pattern %s { error-message %s; }", q(p), q(t.PatMsg))
+		if b := sub(t.PatMsg, t.PatTag); b != "" {
+			x.ln(d+1, "pattern %s {%s }", q(p), b)
 		} else {
 			x.ln(d+1, "pattern %s;", q(p))
 		}
